@@ -38,13 +38,14 @@ def names_query(cfg):
     return "[[" + ", ".join(f"endpoints.{n}.num" for n in ns) + "], [" + ", ".join(f"endpoints.{n}.array" for n in ns) + "]]"
 
 
-def run_cli(cfg, extra_args=(), env_extra=None, cwd=None, outdir=True, cfg_text=None, fmt=False, pre_cfg=None):
+def run_cli(cfg, extra_args=(), env_extra=None, cwd=None, outdir=True, cfg_text=None, fmt=False, pre_cfg=None,
+            cfg_name="cfg.yml"):
     """runs the real command line; returns dict(rc, files {name: text}, stdout).
     fmt: format through the stand-in formatter instead of --no-format;
     pre_cfg: another description generated into the same output directory first"""
     tmp = tempfile.mkdtemp(prefix="floocli_")
     try:
-        cfile = os.path.join(tmp, "cfg.yml")
+        cfile = os.path.join(tmp, cfg_name)
         if cfg_text is not None:
             with open(cfile, "w", encoding="utf-8") as f:
                 f.write(cfg_text)
@@ -380,6 +381,11 @@ class C15Runner:
                   connections=[{"src": "mem", "dst": "xbar", "src_range": [[0, 2]], "allow_multi": True},
                                {"src": "mem_ctrl", "dst": "xbar"}, {"src": "host", "dst": "xbar"}])
         cases.append(("prefix-names", pn))
+        # a network without a name: the generated names do not borrow one from anywhere else
+        en = gen_desc.gen_star(rng, "ID", "axi", k=3)
+        if en:
+            en["name"] = ""
+            cases.append(("empty-name", en))
         # degenerate widths: one column / one row under XY (zero-bit coordinate fields)
         for (m, n, sides) in [(1, 3, ["North"]), (3, 1, ["East"])]:
             c = gen_desc.gen_mesh(rng, "XY", rng.choice(["axi", "narrow-wide"]), m=m, n=n, sides=sides, partial_local=False)
@@ -395,6 +401,7 @@ class C15Runner:
                 (name, "full/seed0", dict(cfg=cfg, env_extra={"PYTHONHASHSEED": "0"})),
                 (name, "full/seed1/cwd2", dict(cfg=cfg, env_extra={"PYTHONHASHSEED": "1"}, cwd=cwd2)),
                 (name, "full/seedrandom/permuted", dict(cfg=perm, env_extra={"PYTHONHASHSEED": "random"})),
+                (name, "full/other-file-name", dict(cfg=cfg, cfg_name="chiplet_noc.yaml", env_extra={"PYTHONHASHSEED": "3"})),
                 (name, "full/reversed-keys", dict(cfg=reverse_keys(cfg), env_extra={"PYTHONHASHSEED": "2"})),
                 (name, "only-pkg", dict(cfg=cfg, extra_args=["--only-pkg"])),
                 (name, "only-top", dict(cfg=cfg, extra_args=["--only-top"])),
@@ -500,7 +507,7 @@ class C15Runner:
                 fail("files-missing", name, str(list(files)), cfg)
                 continue
             stats["descriptions"] += 1
-            for kind in ("full/seed1/cwd2", "full/seedrandom/permuted", "full/reversed-keys"):
+            for kind in ("full/seed1/cwd2", "full/seedrandom/permuted", "full/reversed-keys", "full/other-file-name"):
                 o = r[kind]
                 if o["rc"] != 0 or {k: strip_year(v) for k, v in o["files"].items()} != files:
                     fail("nondeterministic:" + kind, name, f"rc={o['rc']} files differ from the PYTHONHASHSEED=0 run", cfg)
